@@ -88,6 +88,7 @@ func runC17(r *ev.Run) {
 		type handle struct {
 			s      *comet.PersistentHybridIndex
 			closed bool
+			search comet.HybridSearch
 		}
 		var owner *handle
 		var stale []*handle
@@ -125,7 +126,11 @@ func runC17(r *ev.Run) {
 					if !lockPresent(dir) {
 						rep("own.no-lock-while-open", "no LOCK file while the store is open")
 					}
-					owner = &handle{s: s}
+					// a search object built while the handle is open; it is executed again after Close (stale handle ops)
+					owner = &handle{s: s, search: s.NewSearch().WithText("common").WithK(5)}
+					if _, err := owner.search.Execute(); err != nil {
+						rep("own.search-error", fmt.Sprintf("search on the open handle failed: %v", err))
+					}
 					// give it some content now and then
 					if rng.IntN(2) == 0 {
 						d := genStoreDoc(rng, p, ids.next(), "o")
@@ -190,7 +195,14 @@ func runC17(r *ev.Run) {
 					"Remove":    func() error { return h.s.Remove(d.ID) },
 					"Flush":     func() error { return h.s.Flush() },
 					"Search":    func() error { _, err := h.s.NewSearch().WithText("common").Execute(); return err },
-					"Train":     func() error { return h.s.Train([][]float32{{1, 2}}) },
+					"Execute of a search object built before Close": func() error {
+						if h.search == nil {
+							return fmt.Errorf("(none)")
+						}
+						_, err := h.search.Execute()
+						return err
+					},
+					"Train": func() error { return h.s.Train([][]float32{{1, 2}}) },
 					// no return value: must simply neither panic nor block
 					"TriggerCompaction": func() error { h.s.TriggerCompaction(); return fmt.Errorf("(no result)") },
 				}
